@@ -12,9 +12,9 @@ from . import c15, witness, validaterules
 
 CAPACITY_BOUND = 256          # the property's statement: the move list holds 256 moves
 UNSAFE_EXT_MODELLED = {"get_unchecked", "get_unchecked_mut", "add", "unreachable_unchecked", "push_unchecked"}
-# floors: (site, calling context) pairs discharged on the pinned tree, by kind - about 75% of what was counted (fail closed below)
-FLOORS = {"get_unchecked": 400, "construct Coord": 350, "construct Cell": 400, "construct CastlingRights": 15,
-          "construct Move": 120, "construct Board": 2, "construct RawUndo": 2, "store ep_source": 6, "ptr::add": 2, "push_unchecked": 1}
+# floors: (site, calling context) pairs discharged on the pinned tree, by kind - well below what was counted (514/479/545/19/179/...): refactorings move call sites around (fail closed below)
+FLOORS = {"get_unchecked": 200, "construct Coord": 150, "construct Cell": 150, "construct CastlingRights": 6,
+          "construct Move": 50, "construct Board": 2, "construct RawUndo": 2, "store ep_source": 4, "ptr::add": 2, "push_unchecked": 1}
 # the only creators of an UnsafeMoveList (each fills it with exactly one generation run of one position)
 LIST_CREATORS = {"owlchess::movegen::semilegal::gen_all", "owlchess::movegen::semilegal::gen_capture",
                  "owlchess::movegen::semilegal::gen_simple", "owlchess::movegen::semilegal::gen_simple_no_promote",
